@@ -211,6 +211,14 @@ func streamC10(c *Ctx) {
 	}
 	c.Sample(J{"triple": []interface{}{encValue(pool[1]), encValue(pool[40]), encValue(pool[80])}})
 	c10ThroughIndex(c, g)
+	if c.Violations == 0 {
+		// binary values order and index as the slice of their bytes
+		for _, be := range backendsAll {
+			if !binaryValues(c, be) {
+				return
+			}
+		}
+	}
 }
 
 // c10ThroughIndex: the keys the index package really writes, observed in a real store.  For collection / field names of
